@@ -26,10 +26,15 @@ type c03Case struct {
 	Refuse  []int  // sequence numbers the application declines to resend
 	B, E    int    // requested range (E as on the wire)
 	FreshTo bool   // (informational)
+	Jump    int    // pre-stored histories: the numbers 1..Jump were never stored (the counter had been moved forward)
 }
 
 func (c c03Case) String() string {
-	return fmt.Sprintf("%s pre=%v hist=%s refuse=%v request=[%d,%d]", c.Cfg, c.Pre, c.Hist, c.Refuse, c.B, c.E)
+	j := ""
+	if c.Jump > 0 {
+		j = fmt.Sprintf(" numbers 1..%d never stored", c.Jump)
+	}
+	return fmt.Sprintf("%s pre=%v hist=%s%s refuse=%v request=[%d,%d]", c.Cfg, c.Pre, c.Hist, j, c.Refuse, c.B, c.E)
 }
 
 type c03Sent struct {
@@ -44,6 +49,10 @@ var groupBody = []fixscan.Field{{11, "ID"}, {453, "2"}, {448, "P1"}, {447, "D"},
 // groupEndBody: the repeating group is the last thing in the body (nothing between it and the trailer)
 var groupEndBody = []fixscan.Field{{11, "ID"}, {55, "IBM"}, {54, "1"}, {60, "20240101-00:00:00"}, {40, "1"}, {453, "2"}, {448, "P1"}, {447, "D"}, {452, "1"}, {448, "P2"}, {447, "D"}, {452, "2"}}
 
+// nestedEndBody: the last entry of the group ends with a nested group; 0, 1 or 2 body fields follow before the trailer
+var nestedEndBody = []fixscan.Field{{11, "ID"}, {55, "IBM"}, {54, "1"}, {60, "20240101-00:00:00"}, {40, "1"}, {453, "2"}, {448, "P1"}, {447, "D"}, {452, "1"},
+	{448, "P2"}, {447, "D"}, {452, "2"}, {802, "1"}, {523, "S1"}, {803, "1"}}
+
 func c03PreMsg(bs string, kind byte, seq int) []byte {
 	f := []fixscan.Field{{8, bs}, {35, "D"}, {34, strconv.Itoa(seq)}, {49, sessmc.OurComp}, {52, fixscan.Stamp(time.Now().Add(-time.Minute))}, {56, sessmc.PeerComp}}
 	switch kind {
@@ -53,6 +62,12 @@ func c03PreMsg(bs string, kind byte, seq int) []byte {
 		f = append(f, groupBody...)
 	case 'E':
 		f = append(f, groupEndBody...)
+	case 'X':
+		f = append(f, nestedEndBody...)
+	case 'Y':
+		f = append(append(f, nestedEndBody...), fixscan.Field{528, "A"})
+	case 'Z':
+		f = append(append(f, nestedEndBody...), fixscan.Field{528, "A"}, fixscan.Field{58, "text"})
 	case 'H':
 		f[1].Value = "0"
 	case 'A': // an application type whose first character is that of an administrative one
@@ -78,16 +93,23 @@ func c03World(c c03Case) (*sessmc.World, []c03Sent, error) {
 	}
 	var hist []c03Sent
 	if c.Pre {
+		for n := 1; n <= c.Jump; n++ {
+			hist = append(hist, c03Sent{seq: n}) // nothing stored under it: to be gap-filled like an administrative message
+		}
+		if c.Jump > 0 {
+			w.VS.Store().SetNextSenderMsgSeqNum(c.Jump + 1)
+		}
 		for i := 0; i < len(c.Hist); i++ {
-			b := c03PreMsg(cfg.BeginString, c.Hist[i], i+1)
+			n := c.Jump + i + 1
+			b := c03PreMsg(cfg.BeginString, c.Hist[i], n)
 			if !cfg.NoPersist {
-				if err := w.VS.Store().SaveMessage(i+1, b); err != nil {
+				if err := w.VS.Store().SaveMessage(n, b); err != nil {
 					return nil, nil, err
 				}
 			}
-			hist = append(hist, c03Sent{seq: i + 1, app: c.Hist[i] != 'H', bytes: b})
+			hist = append(hist, c03Sent{seq: n, app: c.Hist[i] != 'H', bytes: b})
 		}
-		w.VS.Store().SetNextSenderMsgSeqNum(len(c.Hist) + 1)
+		w.VS.Store().SetNextSenderMsgSeqNum(c.Jump + len(c.Hist) + 1)
 	}
 	grab := func(obs []sessmc.Obs) {
 		for _, o := range obs {
@@ -327,12 +349,14 @@ func runC03(c *core.Ctx) {
 	}
 	c.SetRule(fmt.Sprintf("every outbound history of length <= %d over {plain application, application with nested groups, application with the group last, heartbeat} plus histories <= 2 that also use a two-character application type (AE) and News (body beginning with a group count) (after the Logon; produced through the live send path, or pre-stored with older SendingTime followed by the Logon), every subset of application messages refused on resend, every request [b,e] with 1<=b<=last+2 and e in {0,999999,1..last+2}, x BeginString x persistence x dictionaries x role; distinct = distinct (config,history,refusals,request)", N))
 	c.Assume("b=0 is outside the domain", "one session is reused for all requests against the same (config, history, refusals); every 7th request additionally on a fresh session",
+		"histories whose first 1 or 3 numbers were never used (counter moved forward without a reset): only requests that reach the stored messages are judged, the unused numbers must be gap-filled",
 		"body identity is judged on the region between the last leading header field and the first trailing trailer field (standard tag tables)")
 	type group struct {
 		cfg  sessmc.Config
 		pre  bool
 		hist string
 		ref  []int
+		jump int
 	}
 	var groups []group
 	var hists []string
@@ -357,9 +381,18 @@ func runC03(c *core.Ctx) {
 			}
 		}
 	}
+	// pre-stored only: a group whose last entry ends with a nested group, followed by 0, 1, 2 body fields
+	for _, a := range "XYZ" {
+		for _, b := range " PGH" {
+			hists = append(hists, strings.TrimSpace(string(a)+string(b)), strings.TrimSpace(string(b)+string(a)))
+		}
+	}
 	for _, cfg := range c03Configs(c.Quick()) {
 		for _, pre := range []bool{false, true} {
 			for _, h := range hists {
+				if !pre && strings.ContainsAny(h, "XYZ") {
+					continue // the API writes body fields in tag order: these layouts only exist as stored bytes
+				}
 				// positions of application messages
 				var apps []int
 				for i := range h {
@@ -381,7 +414,11 @@ func runC03(c *core.Ctx) {
 					if cfg.NoPersist && mask != 0 {
 						continue
 					}
-					groups = append(groups, group{cfg, pre, h, ref})
+					groups = append(groups, group{cfg, pre, h, ref, 0})
+					// the same stored history behind numbers that were never used (counter moved forward without a reset)
+					if pre && mask == 0 && len(h) >= 1 && len(h) <= 2 && !cfg.NoPersist {
+						groups = append(groups, group{cfg, pre, h, ref, 1}, group{cfg, pre, h, ref, 3})
+					}
 				}
 			}
 		}
@@ -400,7 +437,7 @@ func runC03(c *core.Ctx) {
 					return
 				}
 				g := groups[i]
-				base := c03Case{Cfg: g.cfg, Pre: g.pre, Hist: g.hist, Refuse: g.ref}
+				base := c03Case{Cfg: g.cfg, Pre: g.pre, Hist: g.hist, Refuse: g.ref, Jump: g.jump}
 				w, hist, err := c03World(base)
 				if err != nil {
 					c.EngineError(err.Error())
@@ -414,6 +451,9 @@ func runC03(c *core.Ctx) {
 						es = append(es, e)
 					}
 					for _, e := range es {
+						if g.jump > 0 && e != 0 && e != 999999 && e <= g.jump {
+							continue // a range ending inside numbers that were never used is outside the statement's histories
+						}
 						cs := base
 						cs.B, cs.E = b, e
 						rule, what := c03Check(cs, w, hist)
